@@ -165,6 +165,12 @@ G_Term(cls, m, n, b, seed, depth, mode) ==
        \* post-processing of "the base's product" would write into the caller's tensor
        [] cls = "ConstMulI" -> Op_ConstMul(Op_Identity(n, b1), G_Pos(b1, seed + 3))
        [] cls = "BlockDiagConstMulI" -> Op_BlockDiag(Op_ConstMul(Op_Identity(n \div 2, b1 \o <<2>>), G_Pos(b1 \o <<2>>, seed + 3)), -3)
+       \* an exactly singular PSD matrix of huge magnitude (rank 2, entries ~ 1e7, all exactly representable): the jitter of the safe Cholesky is
+       \* absorbed by rounding, every attempt fails and root-based code must fall back to the eigendecomposition
+       \* (minus the identity: eigenvalues -1 on the null space, i.e. -1e-8 relative - "numerically" semi-definite, as rounding would make it;
+       \*  the jitter schedule 1e-8 .. 1e-6 cannot repair it)
+       [] cls = "LowRankHuge" -> LET R == T_Fill(b1 \o <<n, 2>>, seed + 3, -2, 2)
+                                 IN Op_Dense(T_Sub(T_Scale(T_MatMul(R, T_Transpose(R)), 10000000), T_EyeB(b1, n)))
        [] cls = "SumZ" -> Op_Sum(<<G_Term("Dense", m, n, b1, seed + 3, 0, 0), Op_Zero(b2 \o <<m, n>>)>>)
        [] cls = "AddedDiag" ->
             Op_AddedDiag(IF d1 <= 0 THEN G_Term(G_Pick(IF mode = 1 THEN <<"Dense", "Toeplitz", "Chol">> ELSE G_NonDiagLeaf, seed), n, n, b1, seed + 3, 0, mode)
@@ -259,10 +265,10 @@ G_AllClasses == <<"Dense", "User", "Diag", "ConstDiag", "Identity", "Zero", "Toe
                   "LowRankRoot", "Kron", "Kron3", "KronTri", "KronDiag", "KronAddedDiag", "SumKron", "AddedDiag",
                   "LRRAddedDiag", "Sum", "Sum3", "PsdSum", "Matmul", "Mul", "ConstMul", "BlockDiag", "BlockInter",
                   "SumBatch", "BatchRepeat", "Cat", "Interp", "Masked", "Perm", "TransPerm", "Kernel", "SumInterp", "MatmulTri", "InterpRootSameIdx">>
-G_SquareOnly == {"ConstMulI", "BlockDiagConstMulI", "InterpRootSameIdx", "MatmulTri", "LRRAddedDiagI", "AddedDiagI", "SumI", "Diag", "ConstDiag", "Identity", "Toeplitz", "Tri", "Chol", "CholU", "Root", "LowRankRoot", "Kron3", "KronTri",
+G_SquareOnly == {"LowRankHuge", "ConstMulI", "BlockDiagConstMulI", "InterpRootSameIdx", "MatmulTri", "LRRAddedDiagI", "AddedDiagI", "SumI", "Diag", "ConstDiag", "Identity", "Toeplitz", "Tri", "Chol", "CholU", "Root", "LowRankRoot", "Kron3", "KronTri",
                  "KronDiag", "KronAddedDiag", "SumKron", "AddedDiag", "LRRAddedDiag", "PsdSum", "Mul", "BlockDiag",
                  "BlockInter", "Perm", "TransPerm"}
-G_LeafClasses == {"ConstMulI", "BlockDiagConstMulI", "InterpRootSameIdx", "MixedDef", "AddedDiagRootConst", "AddedDiagBig", "DenseBig", "KronCholU", "BlockDiagCholU", "SumInterp", "MatmulTri", "LRRAddedDiagI", "AddedDiagI", "SumI", "Dense", "User", "Diag", "ConstDiag", "Identity", "Zero", "Toeplitz", "Chol", "CholU", "SumZ", "LowRankRoot", "KronTri",
+G_LeafClasses == {"LowRankHuge", "ConstMulI", "BlockDiagConstMulI", "InterpRootSameIdx", "MixedDef", "AddedDiagRootConst", "AddedDiagBig", "DenseBig", "KronCholU", "BlockDiagCholU", "SumInterp", "MatmulTri", "LRRAddedDiagI", "AddedDiagI", "SumI", "Dense", "User", "Diag", "ConstDiag", "Identity", "Zero", "Toeplitz", "Chol", "CholU", "SumZ", "LowRankRoot", "KronTri",
                   "KronDiag", "SumKron", "LRRAddedDiag", "Perm", "TransPerm", "Kernel"}
 \* classes that only exist for PSD arguments
 G_PsdOnly == {"Chol", "CholU", "PsdSum", "Mul"}
